@@ -40,6 +40,8 @@ type genState struct {
 	refs     []string
 	// templated: the latest schema defines transaction templates
 	templated bool
+	// force: when set, genOp draws an op of this kind
+	force string
 }
 
 func (g *genState) observe(op Op, out OpOut) {
@@ -103,6 +105,15 @@ func genPostings(r *rand.Rand) []memstore.CPosting {
 		n = 4 + r.Intn(3)
 	}
 	ps := make([]memstore.CPosting, 0, n)
+	if r.Intn(8) == 0 {
+		// fund x, move x→x (self-posting), then spend exactly the same amount from x:
+		// the tracked balance of x must survive its own self-posting
+		x, y := gen.Pick(r, Accounts[1:]), gen.Pick(r, Accounts[1:])
+		a, amt := gen.Pick(r, Assets), genAmount(r)
+		ps = append(ps, memstore.CPosting{S: "world", D: x, A: a, N: amt},
+			memstore.CPosting{S: x, D: x, A: a, N: amt}, memstore.CPosting{S: x, D: y, A: a, N: amt})
+		return ps
+	}
 	for i := 0; i < n; i++ {
 		src := "world"
 		if r.Intn(10) < 3 {
@@ -170,6 +181,10 @@ func genOp(c *gen.Ctx, g *genState, i int) Op {
 	w := r.Intn(100)
 	if len(g.txIDs) == 0 && w >= 45 && w < 70 {
 		w = 0
+	}
+	if g.force != "" {
+		w = map[string]int{KCreateP: 0, KCreateS: 32, KRevert: 45, KSaveTxMeta: 58, KSaveAcMeta: 66,
+			KDelTxMeta: 78, KDelAcMeta: 84, KSchema: 91}[g.force]
 	}
 	switch {
 	case w < 32:
